@@ -75,7 +75,7 @@ func settle() {
 		runtime.GC()
 		select {
 		case <-done:
-		case <-time.After(50 * time.Millisecond):
+		case <-time.After(2 * time.Second):
 		}
 		runtime.GC()
 		time.Sleep(100 * time.Microsecond)
